@@ -201,4 +201,4 @@ def replay(sh, payload):
     t = clean.get("text")
     verdict, sig, detail = totality.classify(res, len(t.encode("utf-8", "surrogatepass")) if t else 0)
     print(verdict, sig, detail)
-    return verdict
+    return "held" if verdict == "excluded" else verdict
